@@ -127,7 +127,15 @@ func main() {
 					}
 					if inl != nil {
 						c2 := newCtx(inl, id, *tier, kf)
-						props[id](c2)
+						func() {
+							defer func() {
+								if r := recover(); r != nil {
+									fmt.Printf("NOTE property=%s: the rules panicked on the inlined view (%v); the tree as written is reported\n", id, r)
+									c2.undecided("inlined-view", "panic", 0, fmt.Sprint(r))
+								}
+							}()
+							props[id](c2)
+						}()
 						if c2.unresolved() == 0 {
 							fmt.Printf("NOTE property=%s: %d obligation(s) were not discharged on the tree as written but all are discharged on the semantically identical view with new helpers inlined (%s); the inlined view is reported\n", id, c.unresolved(), strings.Join(inlNames, ", "))
 							c2.extra["view"] = "inlined: calls of helpers that are not in the reference inventory were inlined before deciding (" + strings.Join(inlNames, ", ") + ")"
